@@ -222,6 +222,9 @@ package agent
 //@ at call SendToPeer#1 assert $2.Payload == frame.Payload && $2.Flags == frame.Flags && $2.Type == protocol.FrameStreamData
 //@ note C04 (transit): both relay branches forward the received payload unchanged; they touch no key (a relayEntry has only peer and stream ids, and no function of this package that relays is in the C03 census of key derivation)
 //@ at[C04] call SendToPeer assert $2.Payload == frame.Payload
+//@ at[C16] call exit.(*Handler).HandleStreamData assert !(upRelay != nil && peerID == upRelay.UpstreamPeer) && !(downRelay != nil && peerID == downRelay.DownstreamPeer)
+//@ at[C16] call forward.(*Handler).HandleStreamData assert !(upRelay != nil && peerID == upRelay.UpstreamPeer) && !(downRelay != nil && peerID == downRelay.DownstreamPeer)
+//@ note C16: a frame that belongs to a relayed tunnel (its id and source peer match a relay entry) is never handed to a local exit or port-forward connection that happens to carry the same number
 
 // ---- C16 / C17: the relay table (shared by TCP streams, UDP associations and ICMP sessions) ----
 //
@@ -264,7 +267,7 @@ package agent
 //@ ensures result != nil ==> result.DownstreamID == streamID && result.DownstreamPeer == peer
 
 //@ func (*relayTable).PopMatchingPeer
-//@ prop C16 C17
+//@ prop C16 C17 C18
 //@ check lockset
 //@ modifies *
 //@ ensures entry != nil && fromUpstream ==> entry.UpstreamID == streamID && entry.UpstreamPeer == peer
@@ -909,9 +912,9 @@ package agent
 //@ at call SendToPeer assert !c04data($2.Type)
 
 //@ func (*Agent).handleStreamClose
-//@ prop C04 C16
+//@ prop C04 C16 C18
 //@ modifies *
-//@ at[C16] call SendToPeer assert entry != nil && ((fromUpstream && entry.UpstreamPeer == peerID && entry.UpstreamID == frame.StreamID && $1 == entry.DownstreamPeer && $2.StreamID == entry.DownstreamID) || (!fromUpstream && entry.DownstreamPeer == peerID && entry.DownstreamID == frame.StreamID && $1 == entry.UpstreamPeer && $2.StreamID == entry.UpstreamID))
+//@ at[C16,C18] call SendToPeer assert entry != nil && ((fromUpstream && entry.UpstreamPeer == peerID && entry.UpstreamID == frame.StreamID && $1 == entry.DownstreamPeer && $2.StreamID == entry.DownstreamID) || (!fromUpstream && entry.DownstreamPeer == peerID && entry.DownstreamID == frame.StreamID && $1 == entry.UpstreamPeer && $2.StreamID == entry.UpstreamID))
 //@ at call SendToPeer assert !c04data($2.Type)
 
 //@ func (*Agent).handleStreamOpenErr
@@ -920,9 +923,9 @@ package agent
 //@ at call SendToPeer assert !c04data($2.Type)
 
 //@ func (*Agent).handleStreamReset
-//@ prop C04 C16
+//@ prop C04 C16 C18
 //@ modifies *
-//@ at[C16] call SendToPeer assert entry != nil && ((fromUpstream && entry.UpstreamPeer == peerID && entry.UpstreamID == frame.StreamID && $1 == entry.DownstreamPeer && $2.StreamID == entry.DownstreamID) || (!fromUpstream && entry.DownstreamPeer == peerID && entry.DownstreamID == frame.StreamID && $1 == entry.UpstreamPeer && $2.StreamID == entry.UpstreamID))
+//@ at[C16,C18] call SendToPeer assert entry != nil && ((fromUpstream && entry.UpstreamPeer == peerID && entry.UpstreamID == frame.StreamID && $1 == entry.DownstreamPeer && $2.StreamID == entry.DownstreamID) || (!fromUpstream && entry.DownstreamPeer == peerID && entry.DownstreamID == frame.StreamID && $1 == entry.UpstreamPeer && $2.StreamID == entry.UpstreamID))
 //@ at call SendToPeer assert !c04data($2.Type)
 
 //@ func (*Agent).handleUDPClose
@@ -1031,3 +1034,22 @@ package agent
 //@ ensures addrType == 3 && len(addr) > 0 ==> len(result) == len(addr) - 1 && forall i in 0..len(result): result[i] == addr[1 + i]
 //@ ensures addrType == 3 && len(addr) == 0 ==> len(result) == 0
 //@ note the domain form of a requested address (which carries forward keys, file-transfer, shell, UDP and ICMP markers as well as host names) is exactly the bytes after the length byte: no trimming, case folding or normalisation happens before the key or name is looked up
+
+// ---- C17: a peer disconnect always clears the relay entries of that peer ----
+//@ ghost var c17pc bool
+//@ ghost var c17del bool
+
+//@ func (*Agent).handlePeerDisconnect
+//@ prop C17
+//@ modifies *, c17pc, c17del
+//@ ghostinit c17pc = false
+//@ at call cleanupRelaysForPeer set c17pc = ($1 == conn.RemoteID)
+//@ ensures c17pc
+//@ note every return of the disconnect handler has passed cleanupRelaysForPeer with the identity of the connection that went away
+
+//@ func (*Agent).cleanupRelaysForPeer
+//@ prop C17
+//@ modifies *, c17del
+//@ ghostinit c17del = false
+//@ at call DeleteByPeer set c17del = ($0 == a.tcpRelay && $1 == peerID)
+//@ ensures c17del
